@@ -8,19 +8,20 @@ PID = "C26"
 def run(tier: str, seed: int) -> Report:
     rep = Report(property_id=PID, level="other")
     rep.exhaustive = False
-    sz = c26.scope_sizes(tier)
+    sz = c26.scope_sizes(tier, seed)
     rep.rule = (
         "cases = (prefix, step): every pipeline cbc.common.gen_pipelines yields at depth 0, 1 and 2 (full per-operator grid, one- and two-table operators; includes "
         "order_rows without limit, select after select/drop and mergeable extends as last prefix steps) x the step family cbc.c26.make_steps(prefix.column_names): "
         "for each rule R1 unknown column (at every builder site), R2 changing a partition/order column, R3 use-and-produce in one extend, R4 non-aggregating / too "
         "complex project and window expressions, R5 join keys (incl. check_all_common_keys_in_equi_spec), R6 concat columns, at least one violating and one "
         "conforming step. The step is added with the REAL builder; 'raised when added' is compared with the rule predicates cbc.c26.violations_of evaluated on "
-        "nothing but the prefix's column names. Every ACCEPTED pipeline is then evaluated with Pandas on a small null-free data set (quick: prefixes of depth <= 1 "
-        "and a seeded 1/12 of the depth-2 prefixes; thorough: all) and must not raise a rule error (cbc.c26.is_rule_error: unknown column, non-aggregating / invalid function, join-key or concat-column complaint) when its prefix evaluates to its declared columns; other evaluation failures are counted in the evidence only. NONTRIVIAL = accept/reject compared with the "
+        "nothing but the prefix's column names. Every ACCEPTED pipeline is then evaluated with Pandas on a small null-free data set (prefixes of depth <= 1 "
+        "always; depth 2: a seeded 1/2 in thorough, 1/24 in quick) and must not raise a rule error (cbc.c26.is_rule_error: unknown column, non-aggregating / invalid function, join-key or concat-column complaint) when its prefix evaluates to its declared columns; other evaluation failures are counted in the evidence only. NONTRIVIAL = accept/reject compared with the "
         "predicate (every builder call), plus one case per Pandas evaluation performed."
     )
-    rep.bounded_label = "bounded: %d prefixes (depth 0..2) x up to %d rule-violating / rule-conforming steps each; accepted pipelines evaluated with Pandas on one 4-row data set" % (
+    rep.bounded_label = "bounded: %d of the %d prefixes of depth 0..2 (thorough: all; quick: depth <= 1, all prefixes the builder simplifies, a seeded third of the rest) x up to %d rule-violating / rule-conforming steps each; accepted pipelines evaluated with Pandas on one 4-row data set" % (
         sz["prefixes"],
+        sz["prefixes_enumerated"],
         sz["steps_on_4_columns"],
     )
     rep.assumptions = [
